@@ -54,6 +54,14 @@ func simple[T comparable, PT interface {
 
 // priorSlice returns a destination slice in one of the prior states: nil, shorter, longer, same length other content, spare capacity.
 func priorBytes(r *vm.Rand, n int) ([]byte, string) {
+	if n > 60 && r.Intn(4) == 0 {
+		// a destination used before for something small: its length and capacity have nothing to do with n
+		b := make([]byte, r.Range(1, 40), r.Range(40, 50))
+		for i := range b {
+			b[i] = 0x99
+		}
+		return b, "small-unrelated"
+	}
 	switch r.Intn(6) {
 	case 0:
 		return nil, "nil"
@@ -228,6 +236,9 @@ func leaf(r *vm.Rand) node {
 		return node{kind: "ByteArray", enc: v, ref: ref, dst: func(r *vm.Rand) (pk.FieldDecoder, func() string) {
 			prior, st := priorBytes(r, n)
 			coverPrior("ByteArray." + st)
+			if n > 65536 && st == "small-unrelated" {
+				coverPrior("ByteArray.above-64KiB-into-small-destination")
+			}
 			d := pk.ByteArray(prior)
 			return &d, func() string {
 				if !bytes.Equal(d, data) {
